@@ -465,6 +465,8 @@ def check_C10(ctx):
     info = oneshot_cases(ctx)
     ctx.distinct = info["cases"]
     ctx.exhaustive = True
+    # at scale: one-shot decode() and ReedSolomonDecoder on long runs of received shards with single losses
+    code_family(ctx, "c10", parts=4, what="one-shot / wrapper decode round")
 
 
 def code_family(ctx, fam, parts=None, what="recorded round"):
